@@ -100,7 +100,7 @@ let run () =
                           && Drv_fs.snapshot_text wi = Drv_fs.snapshot_text (world_of w') in
                (match c, r with CChdir _, SOk -> cwdstr := cur_path w' | _ -> ());
                outs := (Printf.sprintf "%s%s ~%s ~%s ~%s%s ~%s" sr ss kf (if same then "T" else "F")
-                          (if moved && uses_cwd c then "m" else "") (shapes !w c)
+                          (if uses_cwd c then (if moved then "m" else "c") else "") (shapes !w c)
                           (if cwd_alive w' then "A" else "D")) :: !outs;
                w := w') ops;
              print_endline (String.concat " | " (List.rev !outs))
